@@ -594,24 +594,22 @@ def key_discipline_contract(k, inst):
         k.fail("simulation-runs", repr(S))
         return
     ctx = cur()
-    # which key goes to which variable is fixed by the order of the model's functions (not by any set order):
-    # in period t the j-th stochastic transition (in the order of the functions) gets child(carry_t, 1 + j),
-    # carry_0 = root(seed), carry_{t+1} = child(carry_t, 0)
-    from pyvc.stubs.prng import Key
-
+    # which key goes to which variable must not depend on any set iteration order (C09): the key terms are
+    # recorded and compared between runs under different PYTHONHASHSEED values; no particular derivation scheme
+    # is demanded (any scheme that never uses a key twice satisfies C04)
     order = ["next_" + x for x in [nm[len("next_"):] for nm, _, r in S.skel.functions if r == "stoch"]]
-    carry = Key.root(S.seed.e)
     for t in range(S.skel.n_periods):
         got = S.keys_by_period.get(t, {})
         k.ensures(f"one-key-per-stochastic-transition[t={t}]", set(got) == set(order))
-        for j, nm in enumerate(order):
+        for nm in order:
             if nm in got:
-                k.ensures(f"key-of-a-transition-is-fixed-by-the-order-of-the-functions[{nm},t={t}]", T(got[nm].e == Key.child(carry, z3.IntVal(1 + j))))
-        carry = Key.child(carry, z3.IntVal(0))
+                k.fingerprint(f"key-of-transition[{nm},t={t}]", got[nm])
     events = [e for e in ctx.events if e.get("kind") in ("split", "draw")]
     skel, n = S.skel, S.n
     n_st = len(skel.stochastic_states())
-    k.ensures("one-split-of-the-carry-key-per-period-and-one-per-variable-and-one-draw-per-variable", len([e for e in events if e["kind"] == "split"]) == skel.n_periods * (1 + n_st) and len([e for e in events if e["kind"] == "draw"]) == skel.n_periods * n_st)
+    # one (vectorised) draw per stochastic variable and period; how the keys are derived (how many splits or
+    # folds) is left open: any scheme in which no key is used twice satisfies the property
+    k.ensures("one-draw-per-stochastic-variable-and-period", len([e for e in events if e["kind"] == "draw"]) == skel.n_periods * n_st)
 
     def renamed(e, tag):
         vs = [v for v, _ in e["binders"]]
